@@ -107,7 +107,9 @@ def prep_goto(job, wd):
         must(cmd + [cur, nxt], 'goto-instrument --remove-function-body'); cur = nxt
     if job.replace_calls:
         nxt = base + '.rc.gb'
-        must(['goto-instrument', '--replace-calls', ','.join(job.replace_calls), cur, nxt], 'goto-instrument --replace-calls'); cur = nxt
+        cmd = ['goto-instrument']
+        for rcall in job.replace_calls: cmd += ['--replace-calls', rcall]
+        must(cmd + [cur, nxt], 'goto-instrument --replace-calls'); cur = nxt
     return cur
 
 def defined_functions(ll_text):
@@ -167,7 +169,7 @@ def nd_from_trace(trace):
     vals = []
     for st in trace or []:
         if st.get('stepType') != 'assignment': continue
-        if st.get('lhs', '') == 'VERIF_NDV':
+        if st.get('lhs', '') == 'VERIF_NDV' and st.get('sourceLocation', {}).get('function', '') not in ('', '__CPROVER_initialize', '__CPROVER__start'):
             v = st.get('value', {})
             d = str(v.get('data', '0'))
             d = re.sub(r'[a-zA-Z]+$', '', d) or '0'
@@ -175,11 +177,17 @@ def nd_from_trace(trace):
     return vals
 
 def run_cbmc(job, target, wd, res, extra=()):
+    if os.environ.get('VERIF_BUILD_ONLY'):
+        res.status = 'built'; return
     flags = ['--json-ui', '--trace', '--no-malloc-may-fail', '--drop-unused-functions', '--unwinding-assertions']
     if job.func: flags += ['--function', job.func]
     cmd = ['cbmc', target] + flags + job.cbmc + list(extra)
-    if job.sat: cmd += job.sat
-    rc, out, err, wall, rss = run(cmd, cwd=wd, timeout=job.timeout, mem_gb=job.mem_gb)
+    env = None
+    if job.sat == 'cvc5-int':
+        cmd += ['--cvc5', '--slice-formula']
+        env = dict(os.environ, PATH=os.path.join(VERIF, 'tools', 'shim') + ':' + os.environ.get('PATH', ''))
+    elif job.sat: cmd += job.sat
+    rc, out, err, wall, rss = run(cmd, cwd=wd, timeout=job.timeout, mem_gb=job.mem_gb, env=env)
     res.wall_s += wall; res.rss_kb = max(res.rss_kb, rss)
     open(os.path.join(wd, 'cbmc.json'), 'w').write(out)
     open(os.path.join(wd, 'cbmc.cmd'), 'w').write(' '.join(cmd) + '\n')
